@@ -84,7 +84,7 @@ class Interp:
         self.hooks = {}           # name -> callable
         self.max_depth = max_depth
         self.unmodelled = set()
-        self.ref_syms = ["CS0", "MS0", "G0", "N0"]   # entry-state symbols: always coordinates of joins
+        self.ref_syms = ["CS0", "MS0", "G0", "N0", "UM"]   # entry-state symbols: always coordinates of joins
         self._splice_cache = {}
         self._unlink_cache = {}
         self.block_budget = 30000
@@ -105,6 +105,7 @@ class Interp:
         s = self.sym(tag)
         if nonneg:
             st.num.add(ge(Lin.sym(s), 0))
+            st.num.add(le(Lin.sym(s), Lin.sym("UM")))     # UM = usize::MAX
         return vint(Lin.sym(s))
 
     def fresh_of_ty(self, st, ty, tag="v"):
@@ -371,6 +372,7 @@ class Interp:
         c = self.entry_inv(st, size, k, v)
         if c is not None:
             st.num.add(c)
+            st.num.add(le(size[1], Lin.sym("UM")))
             # the entry embeds its key and value: size_of::<K>, size_of::<V> <= size_of::<Entry<K,V>>
             a = self.f.adts[self.r.entry]
             szE = Lin.sym("sz[%s]" % self.entry_ty_str())
@@ -766,6 +768,11 @@ class Frame:
             if base == "Sub" and "Unchecked" not in op:
                 # plain Sub (overflow checks off): wrap-around is silent; obligation raised by the caller
                 self._sub_obligation(st, la, lb, rv)
+            if base == "Add" and "Unchecked" not in op and "WithOverflow" not in op:
+                dest = self._dest_label(self._cur_dest) if getattr(self, "_cur_dest", None) else "tmp"
+                key = ("add", self.chain, dest, str(rv.get("span") if isinstance(rv, dict) else rv) + str(la) + str(lb))
+                ip.oblige(key, st, [le(la + lb, Lin.sym("UM"))], "addition %s + %s cannot exceed usize::MAX" % (la, lb), loc=None, chain=self.chain)
+                st.num.add(le(la + lb, Lin.sym("UM")))
             return r
         if base in ("Eq", "Ne", "Lt", "Le", "Gt", "Ge"):
             if is_int(a) and is_int(b):
@@ -904,6 +911,7 @@ class Frame:
         for s in bl["stmts"]:
             k = s["k"]
             if k == "assign":
+                self._cur_dest = s["place"]
                 val = self.rvalue(st, s["rv"], s["place"]["ty"])
                 self.write_place(st, s["place"], val)
             elif k == "dead":
@@ -944,6 +952,25 @@ class Frame:
             return [(t["target"], s, None) for (_rv, s) in outs]
         return [(t["target"], st, None)]
 
+    def _dest_label(self, place):
+        """Stable, line-free name of the place an arithmetic result is stored into: last named field, else the variable name."""
+        for e in reversed(place.get("p", [])):
+            if e["k"] == "field":
+                return str(e.get("n") or e.get("i"))
+        return self.body.local_name(place["l"]) or "tmp"
+
+    def _ovf_dest(self, t):
+        """Where the result of the checked operation asserted by terminator `t` is stored (first statement of the target block)."""
+        c = t["cond"]
+        if c.get("k") not in ("copy", "move"):
+            return "tmp"
+        l = c["place"]["l"]
+        for s in self.body.blocks[t["target"]]["stmts"]:
+            if s["k"] == "assign" and s["rv"].get("k") == "use" and s["rv"]["op"].get("k") in ("copy", "move") \
+                    and s["rv"]["op"]["place"]["l"] == l:
+                return self._dest_label(s["place"])
+        return "tmp"
+
     def do_assert(self, bb, t, st):
         ip = self.ip
         cond = self.operand(st, t["cond"])
@@ -955,6 +982,11 @@ class Frame:
                 ip.oblige(key, st, [ge(la, lb)], "subtraction %s - %s cannot underflow (a wrap in release builds)" % (la, lb),
                           loc=span_str(t["span"]), chain=self.chain)
                 st.num.add(ge(la, lb))
+            elif kind == "Add":
+                key = ("add", self.chain, self._ovf_dest(t), span_str(t["span"]))
+                ip.oblige(key, st, [le(la + lb, Lin.sym("UM"))], "addition %s + %s cannot exceed usize::MAX (a panic in debug, a wrap in release "
+                          "builds)" % (la, lb), loc=span_str(t["span"]), chain=self.chain)
+                st.num.add(le(la + lb, Lin.sym("UM")))
             return [(t["target"], st, None)]
         if cond[0] == "bool":
             if cond[1] == t["expected"]:
